@@ -1,5 +1,5 @@
 (* C09 — every output format faithfully encodes the computed result.  (partial: see below)
-   Statements only; proofs in Proofs/FormatProofs.v.  Model/Format.v gives list txt/md/csv/json and
+   Statements only; proofs in Proofs/FormatProofs.v.  Model/Format.v gives list txt/md/csv/json/dot and
    diff txt/md/csv BYTE FOR BYTE as functions of the analysis result; the check compares the real
    formatter's bytes with these functions applied to the real API result on every run, and parses every
    format (incl. dot) back.  Proved here: each format lists every entry exactly once (rows are a
@@ -12,7 +12,7 @@
    implementation result.  Not proved: the same for diff and exposure outputs and for dot (parse-back in the
    check); encoding/json and encoding/csv are modelled on the alphabet the analysis produces. *)
 From Coq Require Import List ZArith Bool String Permutation.
-From NP Require Import IntervalSet ConnSet ConnSetProofs World Build Connlist Diff Format SortGeneric FormatProofs StrInj ConnInj RowInj
+From NP Require Import IntervalSet ConnSet ConnSetProofs World Build Connlist Diff Format SortGeneric FormatProofs DotProofs StrInj ConnInj RowInj
      Eval EvalProofs PartitionTiles ModelPrintable.
 Import ListNotations.
 
@@ -37,6 +37,12 @@ Theorem C09_conn_string_is_function_of_the_set c o :
   cs_ninv c -> cs_ninv o -> (forall p n, cs_denote c p n = cs_denote o p n) -> cs_string c = cs_string o.
 Proof. exact (cs_string_eq_of_denote c o). Qed.
 Print Assumptions C09_conn_string_is_function_of_the_set.
+
+(* dot (byte-exact model since the check compares it too): the edge lines are exactly the entries, each once *)
+Theorem C09_dot_edges_are_exactly_the_entries es :
+  Permutation (strsort (map (fun e => dot_edge_line (row_of e)) es)) (map (fun e => dot_edge_line (row_of e)) es).
+Proof. exact (list_dot_edges_are_the_entries es). Qed.
+Print Assumptions C09_dot_edges_are_exactly_the_entries.
 
 (* ---- the rendering is injective ---- *)
 
